@@ -91,7 +91,7 @@ type universe struct {
 
 	recent  []string        // last operations, for violation details
 	prevBad map[string]bool // state-clause violations present in the previously checked snapshot
-	opName string
+	opName  string
 }
 
 var maxDuration = time.Duration(math.MaxInt64)
